@@ -238,3 +238,74 @@ Proof.
   all: match goal with E : cs_free_test _ = false |- _ => unfold cs_free_test in E; rewrite D2 in E; simpl in E; apply nilb_false in E;
          destruct (H E) as [[X | X] | [X | []]]; auto 6; congruence end.
 Qed.
+
+Lemma W5_rest : forall s l s', (lock s = None -> todo s = []) -> W1b s -> HFX s -> W5 s ->
+  (match l with LCreate _ _ | LSubmit _ _ | LLocal _ _ | LPut _ | LEnd _ | LCallback _ | LWork _ _ | LRet _ _ | LCompl _ _ | LHookStart _ | LTExit _ | LTFin _ | LTJoin _ _ | LBlock _ | LMain _ | LMainEnd _ | LQuiescent | LDone => True | _ => False end) ->
+  step s l = Some s' -> W5 s'.
+Proof.
+  intros s l s' AT A1b HF I LL H.
+  assert (O : own s' = own s) by (eapply own_step; eauto).
+  destruct l; try contradiction; clear LL.
+  all: step_inv H.
+  all: try (bools; eapply W5_dispatch; eauto; fail).
+  all: hold_facts; cs_facts.
+  all: unfold W5, evwork_due in *.
+  all: rewrite ?O.
+  all: ssimp.
+  all: ifs.
+  all: ssimp.
+  all: try assumption.
+  all: try pool_inv; try use_pool I.
+  all: outs.
+  all: subst.
+  all: cbn [pdone pshut pstarted p_set_items p_set_head p_set_tail p_set_idle p_set_done p_set_started p_set_shut] in *.
+  all: try assumption.
+  all: try (intros q Q; destruct (I q Q) as (I1 & I2)).
+  all: try match goal with E : lock _ = None |- _ => first [pose proof (AT E) as TD | pose proof (AT eq_refl) as TD] end.
+  all: try match goal with E : todo _ = _ |- _ => rewrite E in * end.
+  all: repeat match goal with
+       | H : omemb _ _ = true |- _ => apply omemb_In in H
+       | H : omemb _ _ = false |- _ => apply not_true_iff_false in H; rewrite omemb_In in H
+       end.
+  all: split; [intros D1; try specialize (I1 D1) | intros D1 D2; try specialize (I2 D1 D2)].
+  all: unfold upd, die_effs in *.
+  all: cbn [In app] in *.
+  all: repeat match goal with
+       | H : context [Nat.eqb ?a ?b] |- _ => destruct (Nat.eqb a b) eqn:?; bools
+       | |- context [Nat.eqb ?a ?b] => destruct (Nat.eqb a b) eqn:?; bools
+       | |- context [if ?b then _ else _] => destruct b eqn:?
+       end; cbn [In app] in *.
+  all: rewrite ?in_app_iff in *; cbn [In] in *.
+  all: cbn [pdone pshut pstarted p_set_items p_set_head p_set_tail p_set_idle p_set_done p_set_started p_set_shut] in *.
+  all: repeat match goal with
+       | H : nilb _ = false |- _ => apply nilb_false in H
+       | H : _ && _ = false |- _ => apply andb_false_iff in H
+       | H : (_ =? _) = false |- _ => apply Z.eqb_neq in H
+       | H : (_ =? _) = true |- _ => apply Z.eqb_eq in H
+       | H : pshut ?p = true -> pstarted ?p = 0 -> _, A : pshut ?p = true, B : pstarted ?p = 0 |- _ => specialize (H A B)
+       | H : pdone ?p <> [] -> _, A : pdone ?p <> [] |- _ => specialize (H A)
+       end.
+  all: try (timeout 2 tauto).
+  all: try match goal with E : pl _ = PLive ?p |- _ => assert (SP : 0 <= pstarted p) by (destruct A1b as (B1 & _); destruct (B1 p E) as (B2 & _); lia) end.
+  all: repeat match goal with
+       | H : _ \/ _ |- _ => destruct H
+       | H : _ /\ _ |- _ => destruct H
+       | H : exists _, _ |- _ => destruct H
+       | H : False |- _ => destruct H
+       | H : FPostO _ = FPostO _ |- _ => inversion H; subst; clear H
+       end.
+  all: try discriminate.
+  all: try congruence.
+  all: try lia.
+  all: try (timeout 5 tauto).
+  all: try solve [timeout 10 intuition (try discriminate; try congruence; try lia; eauto)].
+  all: bools; match goal with T : otopb _ = true |- _ => destruct (otopb_facts _ _ T Q) as (F1 & F2) end; try congruence.
+  all: rewrite F2 in D1 by eauto; discriminate.
+Qed.
+
+Lemma W5_step : forall s l s', (lock s = None -> todo s = []) -> W1b s -> HFX s -> W5 s -> step s l = Some s' -> W5 s'.
+Proof.
+  intros s l s' AT A1b HF I H.
+  destruct l; first [ eapply W5_inlock; eauto; exact Logic.I | eapply W5_evo; eauto; exact Logic.I
+                    | eapply W5_lock; eauto; exact Logic.I | eapply W5_rest; eauto; exact Logic.I ].
+Qed.
